@@ -3,6 +3,8 @@
 #pragma once
 #include "sim/json.h"
 #include <ompl/util/RandomNumbers.h>
+#include <cmath>
+#include <cstdint>
 
 namespace rngfault
 {
@@ -20,8 +22,80 @@ namespace rngfault
         static State s;
         return s;
     }
+    // all-draws mode: every raw draw of every ompl::RNG comes from one harness stream (two executions given the same
+    // stream see the same randomness whatever RNG objects they hold and whatever those were used for before)
+    struct AllDraws
+    {
+        bool on = false;
+        uint64_t s[2] = {1, 2};
+        long n = 0;
+        bool haveSpare = false;
+        double spare = 0;
+        uint64_t next()
+        {
+            // xoroshiro128+
+            uint64_t a = s[0], b = s[1], r = a + b;
+            b ^= a;
+            s[0] = ((a << 24) | (a >> 40)) ^ b ^ (b << 16);
+            s[1] = (b << 37) | (b >> 27);
+            return r;
+        }
+        double unit()
+        {
+            return (double)(next() >> 11) * (1.0 / 9007199254740992.0);
+        }
+        double normal()
+        {
+            if (haveSpare)
+            {
+                haveSpare = false;
+                return spare;
+            }
+            double u, v, q;
+            do
+            {
+                u = 2.0 * unit() - 1.0;
+                v = 2.0 * unit() - 1.0;
+                q = u * u + v * v;
+            } while (q >= 1.0 || q == 0.0);
+            double f = std::sqrt(-2.0 * std::log(q) / q);
+            spare = v * f;
+            haveSpare = true;
+            return u * f;
+        }
+    };
+    inline AllDraws &allDraws()
+    {
+        static AllDraws a;
+        return a;
+    }
+    inline void allDrawsOn(uint64_t seed)
+    {
+        AllDraws &a = allDraws();
+        a.on = true;
+        a.s[0] = seed * 0x9E3779B97F4A7C15ULL + 0x1234567ULL;
+        a.s[1] = (seed ^ 0xD1B54A32D192ED03ULL) * 0xBF58476D1CE4E5B9ULL + 1;
+        a.n = 0;
+        a.haveSpare = false;
+        for (int i = 0; i < 8; i++)
+            a.next();
+    }
+    inline long allDrawsOff()
+    {
+        allDraws().on = false;
+        return allDraws().n;
+    }
     inline bool hook(int kind, double *out)
     {
+        AllDraws &a = allDraws();
+        if (kind == 2)
+            return a.on;
+        if (a.on)
+        {
+            a.n++;
+            *out = kind == 0 ? a.unit() : a.normal();
+            return true;
+        }
         State &s = state();
         if (!s.armed)
             return false;
